@@ -17,11 +17,13 @@ func genStringMapPatch(c *vs.Case, existing map[string]string, own string) map[s
 	keys := []string{own, own + "-2", "foreign", "shared", "team"}
 	for i := 0; i < n; i++ {
 		k := keys[c.Int(len(keys))]
-		switch c.Int(3) {
+		switch c.Int(4) {
 		case 0:
 			out[k] = nil
 		case 1:
 			out[k] = strPtr("v1")
+		case 2:
+			out[k] = strPtr("") // a marker label / annotation: present, with an empty value
 		default:
 			out[k] = strPtr("v2")
 		}
